@@ -89,6 +89,8 @@ class Atom:
     lower_is: str | None = None  # its lower-case image when that is a known word
     ops: tuple = ()
     single: bool = False  # exactly one character long
+    is_lower: bool = False  # contains no upper-case letter (lower() is the identity)
+    is_upper: bool = False
 
     def __post_init__(self):
         w = self.lower_is
@@ -301,7 +303,7 @@ class SStr:
             elif isinstance(p, Atom):
                 if p.lower_is is not None:
                     out.append(f(p.lower_is))
-                elif p.ops and p.ops[-1] == which:
+                elif (p.ops and p.ops[-1] == which) or (which == "lower" and p.is_lower) or (which == "upper" and p.is_upper):
                     out.append(p)
                 else:
                     out.append(p.with_op(which, first=p.first.map(f), last=p.last.map(f)))
@@ -371,8 +373,15 @@ class SStr:
                     for j in (i - 1, i + 1):
                         if 0 <= j < n and isinstance(self.pieces[j], Atom):
                             a = self.pieces[j]
-                            if not any(c in a.excludes for c in old):
-                                raise Undecided(f"replace({old!r}) may straddle {a.describe()} boundary")
+                            for cut in range(1, len(old)):
+                                left, right = old[:cut], old[cut:]
+                                if j == i - 1:
+                                    # atom ends with `left`, this literal starts with `right`
+                                    if p.startswith(right) and not any(c in a.excludes for c in left) and a.has_last(left[-1]) is not False:
+                                        raise Undecided(f"replace({old!r}) may straddle {a.describe()} boundary")
+                                else:
+                                    if p.endswith(left) and not any(c in a.excludes for c in right) and a.has_first(right[0]) is not False:
+                                        raise Undecided(f"replace({old!r}) may straddle {a.describe()} boundary")
             elif isinstance(p, Atom):
                 if any(c in p.excludes for c in old):
                     out.append(p)
